@@ -103,6 +103,24 @@ def _impl(tier, seed, search):
                         if not same:
                             L.fail(f'binop-element:{c}:{opn}:{"1" if m == 1 else "M"}x{"1" if n_ == 1 else "M"}', f'{c} {opn} {c} lengths {m}, {n_}: element {i} is not the single-valued result on the corresponding elements', inp, observed=repr(gi)[:120], required=repr(w)[:120])
                             break
+            # binary methods (not operators) broadcast the same way: Quaternion.inner
+            if c in ('Quaternion', 'UnitQuaternion'):
+                for n_ in range(1, maxlen + 1):
+                    X, xs = mkobj(c, m); Y, ys = mkobj(c, n_); inp = dict(cls=c, method='inner', m=m, n=n_)
+                    L.count('binary-method', key=(c, 'inner', m, n_)); L.sample(f'binop:{c}', inp)
+                    if m > 1 and n_ > 1 and m != n_:
+                        try:
+                            r = X.inner(Y)
+                            L.fail(f'length-mismatch-no-error:{c}:inner', f'{c}.inner with lengths {m} and {n_} must raise ValueError but returned a value', inp, observed=repr(r)[:100])
+                        except ValueError: pass
+                        except Exception as e: L.fail(f'length-mismatch-wrong-error:{c}:inner', f'{c}.inner with lengths {m} and {n_} raised {type(e).__name__}, not ValueError', inp, observed=type(e).__name__)
+                        continue
+                    try: res = X.inner(Y); want = [float(xs[i if m > 1 else 0].inner(ys[i if n_ > 1 else 0])) for i in range(max(m, n_))]
+                    except Exception as e:
+                        L.fail(f'binop-raises:{c}:inner', f'{c}.inner with lengths {m}, {n_} raised {type(e).__name__}', inp, observed=type(e).__name__); continue
+                    got = np.atleast_1d(np.asarray(res, float))
+                    if got.shape != (max(m, n_),) or not np.allclose(got, want, rtol=1e-12, atol=1e-12):
+                        L.fail(f'binop-element:{c}:inner', f'{c}.inner with lengths {m}, {n_} is not the element-wise inner product (shape {got.shape})', inp, observed=got.tolist() if got.size < 30 else list(got.shape))
             # the same object on both sides: still one result per value
             if m > 1:
                 for opn, f in list(OPS.items()):
